@@ -330,6 +330,16 @@ def _admissible(ctx, res: Resolver, s: Site, dt, datas) -> Tuple[Optional[bool],
                                f"without re-inference: padding or gathered values need not fit it")
             return (None, f"data `{short(d, 50)}` under {obj}'s dtype not classified")
         return (True, f"OF({obj}) over {obj}'s own elements")
+    if isinstance(dt, ast.Call) and not (isinstance(dt.func, ast.Name) and dt.func.id in ("infer_dtype", "DataType")):
+        for d in datas:
+            if isinstance(d, str):
+                continue
+            root = d
+            while isinstance(root, (ast.Subscript, ast.Attribute)):
+                root = root.value
+            if isinstance(root, ast.Name) and root.id != "self" and root.id not in f.params and not same_elements_of(d):
+                return (False, f"`{short(d, 50)}` (a locally built buffer) is typed by `{short(dt, 60)}` instead of by inference over its "
+                               f"own values: padding or gathered values need not fit a dtype computed elsewhere")
     return (None, "dtype expression not recognised")
 
 
